@@ -19,7 +19,8 @@ from vlib.core import Result
 PID = "C13"
 RULE = ("cases: 1-3 pipelined well-formed requests (Requestant) or responses (Respondent): content-length / chunked with "
         "extensions, trailers, hex case, leading zeros / close-delimited / no-body statuses / 100-continue preface, CRLF or "
-        "bare-LF head lines, bodies containing CR, LF, CRLF and look-alike framing; x a fragmentation recipe. "
+        "bare-LF head lines, bodies containing CR, LF, CRLF and look-alike framing; x a fragmentation recipe x 0-2 service "
+        "passes without new bytes after each read. "
         "non-trivial = body contains CR or LF or the message has chunked trailers/extensions, and the generated "
         "partition has >= 2 interior cuts; distinct = canonical hash of (specs, recipe)")
 ASSUMPTIONS = ["the driver mirrors Server.serviceReqs/serviceReps and Client.serviceResponse (parse, snapshot on end, makeParser)",
@@ -27,10 +28,10 @@ ASSUMPTIONS = ["the driver mirrors Server.serviceReqs/serviceReps and Client.ser
                "header values carry no leading/trailing blanks (optional whitespace handling is not judged)"]
 
 
-def run_one(kind, data, frags, close, method):
+def run_one(kind, data, frags, close, method, idle=(0,)):
     if kind == "req":
-        return httpdrive.drive_requestant(frags)
-    return httpdrive.drive_respondent(frags, close=close, method=method)
+        return httpdrive.drive_requestant(frags, idle=idle)
+    return httpdrive.drive_respondent(frags, close=close, method=method, idle=idle)
 
 
 def diff(a, b):
@@ -59,7 +60,8 @@ def run_case(case):
     whole = run_one(kind, data, [data], close, method)
     single = run_one(kind, data, [data[i:i + 1] for i in range(len(data))], close, method)
     frags = httpgen.fragments(data, case["cuts"])
-    part = run_one(kind, data, frags, close, method)
+    idle = tuple(case.get("idle") or (0,))
+    part = run_one(kind, data, frags, close, method, idle)
     lf_head = any(s.get("eol") == "lf" for s in specs)
     d = diff(whole, single)
     which = "one read vs 1-byte reads"
@@ -95,6 +97,8 @@ def run_case(case):
     r.nontrivial = (body_nl or fancy) and len(frags) >= 3
     r.labels.append(kind)
     r.labels.append("cuts:" + case["cuts"]["mode"])
+    if any(idle):
+        r.labels.append("idle-passes-between-reads")
     if lf_head:
         r.labels.append("lf-head")
     if len(specs) > 1:
@@ -118,7 +122,8 @@ def _case(kind, lf=True):
         delim = httpgen.response_spec(eols=eols, frames=("len", "chunked", "nobody"))
         last = httpgen.response_spec(eols=eols)
         msgs = st.tuples(st.lists(delim, max_size=2), last).map(lambda t: t[0] + [t[1]])
-    return st.fixed_dictionaries({"k": st.just(kind), "msgs": msgs, "cuts": httpgen.cuts()})
+    return st.fixed_dictionaries({"k": st.just(kind), "msgs": msgs, "cuts": httpgen.cuts(),
+                                  "idle": st.one_of(st.just([0]), st.just([0]), st.lists(st.integers(0, 2), min_size=1, max_size=4))})
 
 
 def searches(tier):
